@@ -7,6 +7,7 @@ arithmetic and permutation matrix are regenerated from /repo (Gen/C09).
 -/
 import CfVerif.Proofs.C09Match
 import CfVerif.Proofs.C09Link
+import CfVerif.Proofs.C09Layout
 namespace CfVerif.C09
 open CfVerif
 
@@ -33,6 +34,7 @@ theorem gen_ippe_wrapping :
     Gen.C09.ippeToCfCalls = ["IppeCf._rotate_rot_mat_to_cf(solutions['R1'])", "IppeCf._rotate_rot_mat_to_cf(solutions['R2'])",
       "IppeCf._rotate_vector_to_cf(solutions['t1'])", "IppeCf._rotate_vector_to_cf(solutions['t2'])"] := by decide
 
+set_option maxRecDepth 20000 in
 theorem gen_link_loop :
     Gen.C09.linkWhileBody = ["buckets: dict[int, list[Pose]] = {}", "for bs_poses_in_sample in bs_poses_ref_cfs:",
       "for bs_id, poses in buckets.items():", "to_find = all_bs - bs_poses.keys()", "if len(to_find) == 0:",
@@ -43,6 +45,7 @@ theorem gen_link_loop :
     Gen.C09.linkCompares = ["remaining > 0", "len(known) > 0", "bs_id not in buckets", "len(to_find) == 0", "len(to_find) == remaining"] ∧
     Gen.C09.linkFors = ["for initial_est_bs_poses in bs_poses_ref_cfs", "for bs_poses_in_sample in bs_poses_ref_cfs",
       "for bs_id in unknown", "for (bs_id, poses) in buckets.items()"] := by decide
+set_option maxRecDepth 20000 in
 theorem gen_link_exprs :
     (∀ e ∈ ["to_find = all_bs - bs_poses.keys()", "remaining = len(to_find)",
         "unknown = to_find.intersection(bs_poses_in_sample.keys())",
@@ -51,6 +54,7 @@ theorem gen_link_exprs :
         "unknown_cf = bs_poses_in_sample[bs_id]",
         "bs_pose = cls._map_pose_to_ref_frame(known_global, known_cf, unknown_cf)",
         "bs_poses[bs_id] = cls._avarage_poses(poses)"], e ∈ Gen.C09.linkAssigns) := by decide
+set_option maxRecDepth 20000 in
 theorem gen_estimate :
     Gen.C09.estimateCompares = ["len(bs_pose_ref_cfs) > 0", "reference_bs_pose is None"] ∧
     Gen.C09.estimateRaises = ["raise LhException('Too little data, no reference')"] ∧
@@ -60,6 +64,54 @@ theorem gen_estimate :
     Gen.C09.cfPosesFors = ["for est_ref_cf in bs_poses_ref_cfs", "for (bs_id, pose_cf) in est_ref_cf.items()"] ∧
     Gen.C09.cfPosesAssigns = ["poses = []", "pose_global = bs_poses[bs_id]", "est_ref_global = cls._map_cf_pos_to_cf_pos(pose_global, pose_cf)"] ∧
     Gen.C09.cfPosesCalls = ["poses.append(est_ref_global)", "cf_poses.append(cls._avarage_poses(poses))"] := by decide
+
+set_option maxRecDepth 20000 in
+theorem gen_solver_setup :
+    (∀ e ∈ ["solution.n_bss = len(initial_guess.bs_poses)", "solution.n_cfs = len(matched_samples)",
+        "solution.n_cfs_in_params = len(matched_samples) - 1", "solution.n_sensors = len(sensor_positions)",
+        "x0 = np.hstack((params_bs.ravel(), params_cfs.ravel()))"], e ∈ Gen.C09.solveAssigns) ∧
+    Gen.C09.bsMapFors = ["for (index, id) in enumerate(sorted(initial_guess_bs_poses.keys()))"] ∧
+    Gen.C09.bsMapAssigns = ["bs_id_to_index = {}", "bs_index_to_id = {}", "bs_id_to_index[id] = index", "bs_index_to_id[index] = id"] := by decide
+set_option maxRecDepth 20000 in
+theorem gen_jacobian :
+    Gen.C09.jacFors = ["for (cf_i, sample) in enumerate(matched_samples)", "for bs_id in sorted(sample.angles_calibrated.keys())",
+      "for sensor_i in range(defs.n_sensors)", "for (cf_i, sample) in enumerate(matched_samples)",
+      "for bs_id in sorted(sample.angles_calibrated.keys())", "for sensor_i in range(defs.n_sensors * 2)",
+      "for i in range(first, first + defs.n_params_per_bs)", "for i in range(first, first + defs.n_params_per_cf)"] ∧
+    Gen.C09.jacAppends = ["index_angle_pair_to_cf.append(cf_i)", "index_angle_pair_to_bs.append(bs_index)",
+      "index_angle_pair_to_sensor_base.append(sensor_i)"] ∧
+    Gen.C09.jacCompares = ["cf_i > 0"] ∧
+    Gen.C09.jacMarkBodies = ["jac_sparsity[row_i, i] = 1", "jac_sparsity[row_i, i] = 1"] ∧
+    Gen.C09.jacMatrixShape = "scipy.sparse.lil_matrix((len_residual_vec, len_param_vec), dtype=int)" ∧
+    (∀ e ∈ ["bs_index = defs.bs_id_to_index[bs_id]", "row_i = 0", "row_i += 1"], e ∈ Gen.C09.jacAssigns) ∧
+    Gen.C09.jacReturns = ["return (np.array(index_angle_pair_to_bs), np.array(index_angle_pair_to_cf), np.array(index_angle_pair_to_sensor_base), jac_sparsity)"] := by decide
+set_option maxRecDepth 20000 in
+theorem gen_residual_gather :
+    Gen.C09.paramsToStructAssigns = ["bs_param_count = defs.n_bss * defs.n_params_per_bs",
+      "params_bs_poses = params[:bs_param_count].reshape((defs.n_bss, defs.n_params_per_bs))",
+      "params_cf_poses = params[bs_param_count:].reshape((defs.n_cfs_in_params, defs.n_params_per_cf))"] ∧
+    Gen.C09.paramsToStructReturns = ["return (params_bs_poses, params_cf_poses)"] ∧
+    (∀ e ∈ ["bss, cfs = cls._params_to_struct(params, defs)",
+        "cfs_full = np.concatenate((np.zeros((1, defs.n_params_per_cf), dtype=float), cfs))",
+        "angle_pairs = cls._poses_to_angle_pairs(bss, cfs_full, sensor_positions, index_angle_pair_to_bs, index_angle_pair_to_cf, index_angle_pair_to_sensor_base, defs)",
+        "distances_to_cfs = np.repeat(np.linalg.norm(bss[index_angle_pair_to_bs][:, 3:] - cfs_full[index_angle_pair_to_cf][:, 3:], axis=1), 2)"],
+      e ∈ Gen.C09.calcResidualAssigns) ∧
+    Gen.C09.posesToAnglePairsAssigns = ["pairs = cls._calc_angle_pairs(bss[index_angle_pair_to_bs], cf_poses[index_angle_pair_to_cf], sensor_base_pos[index_angle_pair_to_sensor_base], defs)"] := by decide
+set_option maxRecDepth 20000 in
+theorem gen_guess_and_condense :
+    Gen.C09.initialGuessAssigns = ["params_bs = np.zeros((defs.n_bss, defs.n_params_per_bs))",
+      "params_bs[defs.bs_id_to_index[bs_id], :] = cls._pose_to_params(pose)",
+      "params_cfs = np.zeros((defs.n_cfs_in_params, defs.n_params_per_cf))",
+      "params_cfs[index, :] = cls._pose_to_params(inital_est_pose)"] ∧
+    Gen.C09.initialGuessFors = ["for (bs_id, pose) in initial_guess.bs_poses.items()",
+      "for (index, inital_est_pose) in enumerate(initial_guess.cf_poses[1:])"] ∧
+    Gen.C09.poseToParamsReturns = ["return np.concatenate((pose.rot_vec, pose.translation))"] ∧
+    Gen.C09.paramsToPoseAssigns = ["r_vec = params[:defs.len_rot_vec]", "t = params[defs.len_rot_vec:defs.len_pose]"] ∧
+    Gen.C09.paramsToPoseReturns = ["return Pose.from_rot_vec(R_vec=r_vec, t_vec=t)"] ∧
+    Gen.C09.condenseAppends = ["solution.cf_poses.append(Pose())", "solution.cf_poses.append(cls._params_to_pose(cf_poses[i], solution))"] ∧
+    (∀ e ∈ ["bss, cf_poses = cls._params_to_struct(lsq_result.x, solution)", "bs_id = solution.bs_index_to_id[index]",
+        "solution.bs_poses[bs_id] = cls._params_to_pose(pose, solution)"], e ∈ Gen.C09.condenseAssigns) ∧
+    (∀ e ∈ ["for i in range(len(matched_samples) - 1)", "for (index, pose) in enumerate(bss)"], e ∈ Gen.C09.condenseFors) := by decide
 
 /-! ## T1 — sample matcher -/
 
@@ -235,6 +287,142 @@ theorem estimate_outcome (ops : PoseOps P) (pick : Nat → Nat → List Nat → 
         simp only [estimate, findReference, this]
 
 end T2
+
+/-! ## T4 — parameter layout of the geometry solver and Jacobian sparsity -/
+
+/-- A pose is 6 parameters: 3 rotation-vector components then 3 position components. -/
+theorem layout_constants : Gen.C09.lenRotVec = 3 ∧ Gen.C09.lenPose = 6 ∧ Gen.C09.nParamsPerBs = 6 ∧ Gen.C09.nParamsPerCf = 6 := by decide
+
+/-- `6·n_bs + 6·(n_cf − 1)` parameters; an empty sample list is rejected (numpy ValueError). -/
+theorem layout_length (bsIds : List Nat) (nSamples nSensors : Nat) :
+    (nSamples = 0 → mkDefs bsIds nSamples nSensors = .error .valueError) ∧
+    (0 < nSamples → ∃ defs, mkDefs bsIds nSamples nSensors = .ok defs ∧ defs.nBss = bsIds.length ∧
+      defs.nCfs = nSamples ∧ defs.nCfsInParams = nSamples - 1 ∧ defs.nSensors = nSensors ∧
+      defs.idToIndex = (createBsMap bsIds).1 ∧ defs.indexToId = (createBsMap bsIds).2 ∧
+      Gen.C09.lenParamVec defs.nBss defs.nCfsInParams = 6 * bsIds.length + 6 * (nSamples - 1)) := by
+  constructor
+  · rintro rfl; rfl
+  · intro h
+    obtain ⟨n, rfl⟩ : ∃ n, nSamples = n + 1 := ⟨nSamples - 1, by omega⟩
+    have e : Gen.C09.nCfsInParamsOf ((n + 1 : Nat) : Int) = Int.ofNat n := by
+      simp only [Gen.C09.nCfsInParamsOf, Int.ofNat_eq_natCast]; omega
+    refine ⟨{ nBss := bsIds.length, nCfs := n + 1, nCfsInParams := n, nSensors := nSensors,
+              idToIndex := (createBsMap bsIds).1, indexToId := (createBsMap bsIds).2 },
+      by simp only [mkDefs, e], rfl, rfl, rfl, rfl, rfl, rfl, ?_⟩
+    simp only [Gen.C09.lenParamVec, Gen.C09.nParamsPerBs, Gen.C09.nParamsPerCf]; omega
+
+/-- Base stations are indexed in sorted-id order: index `k` ↔ the `k`-th smallest id, both ways. -/
+theorem bsmap_sorted (ids : List Nat) (hn : ids.Nodup) :
+    (sortIds ids).Pairwise (· ≤ ·) ∧ (sortIds ids).Perm ids ∧
+    (∀ b k, (createBsMap ids).1.get? b = some k ↔ (sortIds ids)[k]? = some b) ∧
+    (∀ k, (createBsMap ids).2.get? k = (sortIds ids)[k]?) := by
+  refine ⟨sortIds_sorted ids, sortIds_perm ids, ?_, ?_⟩
+  · intro b k
+    have := get?_invEnum (sortIds ids) 0 b k ((sortIds_perm ids).nodup_iff.mpr hn)
+    simpa [createBsMap] using this
+  · intro k
+    have := get?_enumFrom (sortIds ids) 0 k
+    simpa [createBsMap] using this
+
+/-- The columns marked in the sparsity row of (base-station index `k`, sample `c`): the 6 parameters of base
+station `k` at offset `6k`, and — for every sample but the first — the 6 parameters of CF pose `c` at offset
+`6·n_bs + 6·(c−1)`.  All marks lie inside the parameter vector. -/
+theorem sparsity_columns (defs : Defs) (k c col : Nat) :
+    (col ∈ markRow defs k c ↔
+      (6 * k ≤ col ∧ col < 6 * k + 6) ∨ (0 < c ∧ 6 * defs.nBss + 6 * (c - 1) ≤ col ∧ col < 6 * defs.nBss + 6 * (c - 1) + 6)) ∧
+    (k < defs.nBss → c ≤ defs.nCfsInParams → col ∈ markRow defs k c →
+      col < Gen.C09.lenParamVec defs.nBss defs.nCfsInParams) := by
+  have h := mem_markRow defs k c col
+  simp only [Gen.C09.nParamsPerBs, Gen.C09.nParamsPerCf] at h
+  refine ⟨h, ?_⟩
+  intro hk hc hm
+  simp only [Gen.C09.lenParamVec, Gen.C09.nParamsPerBs, Gen.C09.nParamsPerCf]
+  rcases h.mp hm with ⟨_, h2⟩ | ⟨h0, _, h2⟩ <;> omega
+
+/-- The index arrays and the sparsity rows are aligned: `jac_sparsity` has `len_residual_vec = 2·(number of angle
+pairs)` rows, and rows `2j` and `2j+1` carry the marks of the (base station, sample) of angle pair `j`; the
+index arrays stay inside the base-station table, the sample list and the sensor list. -/
+theorem sparsity_rows (ids : List Nat) (nSensors : Nat) (defs : Defs) (samples : List (List Nat))
+    (pairs : List (Nat × Nat × Nat)) (hd : mkDefs ids samples.length nSensors = .ok defs) (hn : ids.Nodup)
+    (hp : pairIndexes defs samples = .ok pairs) :
+    ∃ rows, jacSparsity defs samples = .ok rows ∧ rows.length = (jacShape defs pairs.length).1 ∧
+      (∀ j a, a < 2 → rows[2 * j + a]? = (pairs[j]?).map (fun t => markRow defs t.1 t.2.1)) ∧
+      (∀ t ∈ pairs, t.1 < defs.nBss ∧ t.2.1 < samples.length ∧ t.2.1 ≤ defs.nCfsInParams ∧ t.2.2 < nSensors) := by
+  refine ⟨_, allRowsFrom_eq defs 0 samples pairs hp, ?_, fun j a ha => getElem?_flatMap_pairRows defs pairs j a ha, ?_⟩
+  · simp only [length_flatMap_pairRows, jacShape, Gen.C09.lenResidualVec]; omega
+  · intro t ht
+    obtain ⟨_, h2, h3, b, hb⟩ := allPairsFrom_mem defs 0 samples pairs hp t ht
+    rcases Nat.eq_zero_or_pos samples.length with h0 | hpos
+    · omega
+    · obtain ⟨defs', hd', e1, _, e3, e4, e5, _, _⟩ := (layout_length ids samples.length nSensors).2 hpos
+      rw [hd] at hd'; cases hd'
+      have hk := ((bsmap_sorted ids hn).2.2.1 b t.1).mp (by rw [← e5]; exact hb)
+      have hlt := (List.getElem?_eq_some_iff.mp hk).1
+      rw [(sortIds_perm ids).length_eq] at hlt
+      exact ⟨by omega, by omega, by omega, by omega⟩
+
+section T4dep
+variable {α β : Type}
+
+/-- **What a residual row reads.**  Row `2j+a` of `_calc_residual` is computed (by whatever row-wise numerics
+`rowFn`) from: the 6 parameters at offset `6k` (`k` = sorted index of the row's base station), the pose of the
+row's sample — the ZERO pose for sample 0 (CF 0 is pinned: "the frame of the first sample"), the 6 parameters at
+offset `6·n_bs + 6·(c−1)` for sample `c ≥ 1` — and the row's sensor. -/
+theorem residual_row_reads (rowFn : Nat → List α → List α → Nat → Nat → β) (zero : α) (defs : Defs)
+    (pairs : List (Nat × Nat × Nat)) (params : List α) (res : List β)
+    (h : calcResidual rowFn zero defs pairs params = .ok res) :
+    params.length = 6 * defs.nBss + 6 * defs.nCfsInParams ∧ res.length = 2 * pairs.length ∧
+    ∀ j k c s, pairs[j]? = some (k, c, s) →
+      res[2 * j]? = some (rowFn (2 * j) ((params.drop (6 * k)).take 6)
+        (if c = 0 then List.replicate 6 zero else (params.drop (6 * defs.nBss + 6 * (c - 1))).take 6) s 0) ∧
+      res[2 * j + 1]? = some (rowFn (2 * j + 1) ((params.drop (6 * k)).take 6)
+        (if c = 0 then List.replicate 6 zero else (params.drop (6 * defs.nBss + 6 * (c - 1))).take 6) s 1) := by
+  obtain ⟨h1, h2, h3⟩ := calcResidual_reads rowFn zero defs pairs params res h
+  refine ⟨by simpa [Gen.C09.lenParamVec, Gen.C09.nParamsPerBs, Gen.C09.nParamsPerCf, Nat.mul_comm] using h1, h2, ?_⟩
+  intro j k c s hj
+  obtain ⟨_, _, r0, r1⟩ := h3 j k c s hj
+  exact ⟨r0, r1⟩
+
+/-- **The Jacobian sparsity pattern marks every parameter a residual row depends on.**  For the index arrays
+and sparsity rows built from the same samples: if two parameter vectors agree on every column marked in row `r`
+of `jac_sparsity`, then row `r` of the residual is the same for both — for ANY row-wise residual numerics.
+(So scipy's grouped finite differences, which perturb unmarked columns together, cannot corrupt a row.) -/
+theorem sparsity_covers_dependencies (rowFn : Nat → List α → List α → Nat → Nat → β) (zero : α) (defs : Defs)
+    (samples : List (List Nat)) (pairs : List (Nat × Nat × Nat)) (rows : List (List Nat))
+    (hp : pairIndexes defs samples = .ok pairs) (hr : jacSparsity defs samples = .ok rows)
+    (params params' : List α) (res res' : List β)
+    (h1 : calcResidual rowFn zero defs pairs params = .ok res)
+    (h2 : calcResidual rowFn zero defs pairs params' = .ok res')
+    (r : Nat) (cols : List Nat) (hrow : rows[r]? = some cols)
+    (hagree : ∀ c ∈ cols, params[c]? = params'[c]?) :
+    res[r]? = res'[r]? ∧ rows.length = res.length := by
+  have hrows := allRowsFrom_eq defs 0 samples pairs hp
+  simp only [jacSparsity] at hr
+  rw [hrows] at hr
+  simp only [Except.ok.injEq] at hr
+  subst hr
+  obtain ⟨_, l1, rd1⟩ := calcResidual_reads rowFn zero defs pairs params res h1
+  obtain ⟨_, l2, rd2⟩ := calcResidual_reads rowFn zero defs pairs params' res' h2
+  refine ⟨?_, by rw [length_flatMap_pairRows, l1]⟩
+  have hr2 : r = 2 * (r / 2) + r % 2 := by omega
+  have hlt : r % 2 < 2 := Nat.mod_lt _ (by decide)
+  rw [hr2, getElem?_flatMap_pairRows defs pairs (r / 2) (r % 2) hlt] at hrow
+  cases hpj : pairs[r / 2]? with
+  | none => rw [hpj] at hrow; cases hrow
+  | some t =>
+    obtain ⟨k, c, s⟩ := t
+    rw [hpj] at hrow
+    simp only [Option.map_some, Option.some.injEq] at hrow
+    subst hrow
+    obtain ⟨_, _, a0, a1⟩ := rd1 (r / 2) k c s hpj
+    obtain ⟨_, _, b0, b1⟩ := rd2 (r / 2) k c s hpj
+    obtain ⟨e1, e2⟩ := slices_agree zero defs k c params params' hagree
+    rw [hr2]
+    rcases (show r % 2 = 0 ∨ r % 2 = 1 by omega) with hm | hm
+    · rw [hm, Nat.add_zero, a0, b0, e1, e2]
+    · rw [hm, a1, b1, e1, e2]
+
+end T4dep
 
 /-! ## T5 — IPPE <-> CF axis permutations -/
 
